@@ -23,7 +23,10 @@ package main
 
 import (
 	"context"
+	"crypto/sha1"
+	"encoding/hex"
 	"encoding/json"
+	"errors"
 	"flag"
 	"fmt"
 	"io"
@@ -42,6 +45,7 @@ import (
 	"tunnox-core/internal/cloud/repos"
 	"tunnox-core/internal/cloud/services"
 	"tunnox-core/internal/command"
+	"tunnox-core/internal/constants"
 	"tunnox-core/internal/core/idgen"
 	corelog "tunnox-core/internal/core/log"
 	"tunnox-core/internal/core/storage"
@@ -120,6 +124,9 @@ type kase struct {
 	m, k, d  int
 	g        int64
 	bridge   bool
+	extra    int64    // != 0: every identity-like key is added to the body with this foreign value
+	extraKey []string // key:n | key:s
+	faults   uint64   // bit i: the i-th read (during the command) of the named mapping's main record fails transiently
 	conns    []connSpec
 	maps     []mapSpec
 	codes    []codeSpec
@@ -134,12 +141,30 @@ func atoi64(s string) int64 {
 
 func parseCase(s string) (*kase, error) {
 	t := strings.Fields(s)
-	if len(t) < 24 || t[0] != "c" || t[22] != "W" {
+	if len(t) < 24 || t[0] != "c" {
 		return nil, fmt.Errorf("bad case")
 	}
 	k := &kase{ctype: atoi(t[1]), resp: t[3] == "1", from: atoi(t[5]), snd: t[7], rcv: t[9], tok: t[11],
 		bad: t[13] == "1", m: atoi(t[15]), g: atoi64(t[17]), k: atoi(t[19]), d: atoi(t[21])}
 	i := 23
+	i = 22
+	if i+2 < len(t) && t[i] == "e" {
+		k.extra = atoi64(t[i+1])
+		k.extraKey = strings.Split(t[i+2], ",")
+		i += 3
+	}
+	if i+1 < len(t) && t[i] == "q" {
+		v, err := strconv.ParseUint(t[i+1], 10, 64)
+		if err != nil {
+			return nil, fmt.Errorf("bad fault plan")
+		}
+		k.faults = v
+		i += 2
+	}
+	if i >= len(t) || t[i] != "W" {
+		return nil, fmt.Errorf("bad case")
+	}
+	i++
 	if i+1 < len(t) && t[i] == "br" {
 		k.bridge = t[i+1] == "1"
 		i += 2
@@ -206,12 +231,48 @@ func parseCase(s string) (*kase, error) {
 	return k, nil
 }
 
+// ---------------------------------------------------------------- fault-injecting store
+
+// flakyStorage is the real in-memory storage with one injectable fault: while armed, the reads (Get) of one key are
+// counted, and the i-th one fails with a transient error if bit i of the plan is set. Everything else, and every
+// read after the plan is exhausted, is served by the real storage.
+type flakyStorage struct {
+	*storage.MemoryStorage
+	mu    sync.Mutex
+	key   string
+	plan  uint64
+	reads int
+}
+
+var errTransient = errors.New("storage: i/o timeout (verif: injected transient read fault)")
+
+func (f *flakyStorage) Get(key string) (any, error) {
+	f.mu.Lock()
+	if f.key != "" && key == f.key {
+		n := f.reads
+		f.reads++
+		if n < 64 && f.plan&(1<<uint(n)) != 0 {
+			f.mu.Unlock()
+			return nil, errTransient
+		}
+	}
+	f.mu.Unlock()
+	return f.MemoryStorage.Get(key)
+}
+
+func (f *flakyStorage) arm(key string, plan uint64) {
+	f.mu.Lock()
+	f.key, f.plan, f.reads = key, plan, 0
+	f.mu.Unlock()
+}
+
 // ---------------------------------------------------------------- world
 
 type world struct {
 	cancel  context.CancelFunc
 	sms     []*session.SessionManager // one per node
 	hub     *hub
+	stor    *flakyStorage
 	cloud   *managers.BuiltinCloudControl
 	kase    *kase
 	pmRepo  *repos.PortMappingRepo
@@ -330,6 +391,9 @@ func (w *world) settle() string {
 				continue
 			}
 			deadline := time.Now().Add(5 * time.Second)
+			if w.kase.faults != 0 {
+				deadline = time.Now().Add(30 * time.Millisecond)
+			}
 			for {
 				got := false
 				for _, p := range fs.snapshot() {
@@ -341,6 +405,9 @@ func (w *world) settle() string {
 					break
 				}
 				if time.Now().After(deadline) {
+					if w.kase.faults != 0 {
+						break // the receiving node's own read of the record may have been the one that failed: nothing is pushed
+					}
 					return "timeout-broadcast-delivery"
 				}
 				time.Sleep(50 * time.Microsecond)
@@ -355,7 +422,12 @@ func buildWorld(k *kase) (*world, error) {
 	ctx, cancel := context.WithCancel(context.Background())
 	w := &world{cancel: cancel, done: make(chan struct{}, 4), kase: k, hub: &hub{subs: map[string][]chan *session.BroadcastMessage{}}}
 	// storage, cloud control and services are shared by all nodes (one deployment)
-	stor := storage.NewMemoryStorage(ctx)
+	mem, ok := storage.NewMemoryStorage(ctx).(*storage.MemoryStorage)
+	if !ok {
+		return nil, fmt.Errorf("memory storage has an unexpected concrete type")
+	}
+	stor := &flakyStorage{MemoryStorage: mem}
+	w.stor = stor
 	repo := repos.NewRepository(stor)
 	cc := factories.NewBuiltinCloudControlWithRepo(ctx, managers.DefaultConfig(), stor, repo)
 	w.cloud = cc
@@ -496,18 +568,20 @@ type snap struct {
 	codes map[string]string // id -> target:activated:revoked:mapping
 	doms  map[string]string // id -> owner:full
 	mapLT map[string]string // id -> listen:target
+	raw   map[string][]byte // id -> the whole record as JSON
 	codeT map[string]string
 	domO  map[string]string
 }
 
 func (w *world) snapshot(ids []int64) snap {
 	s := snap{maps: map[string]string{}, codes: map[string]string{}, doms: map[string]string{},
-		mapLT: map[string]string{}, codeT: map[string]string{}, domO: map[string]string{}}
+		mapLT: map[string]string{}, codeT: map[string]string{}, domO: map[string]string{}, raw: map[string][]byte{}}
 	ms, _ := w.pmRepo.ListAllMappings()
 	for _, m := range ms {
-		s.maps[m.ID] = fmt.Sprintf("%d:%d:%s:%d:%d:%v", m.ListenClientID, m.TargetClientID, m.Status,
+		s.maps[m.ID] = fmt.Sprintf("%d:%d:%s:%d:%d:%v:listed", m.ListenClientID, m.TargetClientID, m.Status,
 			m.TrafficStats.BytesSent, m.TrafficStats.BytesReceived, m.IsRevoked)
 		s.mapLT[m.ID] = fmt.Sprintf("%d:%d", m.ListenClientID, m.TargetClientID)
+		s.raw[m.ID], _ = json.Marshal(m)
 	}
 	// mappings removed from the global list but still stored would be missed: look the known ones up directly
 	for _, id := range w.mapIDs {
@@ -528,12 +602,14 @@ func (w *world) snapshot(ids []int64) snap {
 			}
 			s.codes[c.ID] = fmt.Sprintf("%d:%v:%v:%s", c.TargetClientID, c.IsActivated, c.IsRevoked, mid)
 			s.codeT[c.ID] = fmt.Sprintf("%d", c.TargetClientID)
+			s.raw[c.ID], _ = json.Marshal(c)
 		}
 	}
 	ds, _ := w.domRepo.ListAllMappings(context.Background())
 	for _, d := range ds {
 		s.doms[d.ID] = fmt.Sprintf("%d:%s:%s", d.ClientID, d.FullDomain, d.Status)
 		s.domO[d.ID] = fmt.Sprintf("%d", d.ClientID)
+		s.raw[d.ID], _ = json.Marshal(d)
 	}
 	for _, id := range w.domIDs {
 		if _, ok := s.doms[id]; !ok {
@@ -544,6 +620,78 @@ func (w *world) snapshot(ids []int64) snap {
 		}
 	}
 	return s
+}
+
+func (w *world) refOf(id string) string {
+	if i := idx(w.mapIDs, id); i >= 0 {
+		return fmt.Sprintf("m%d", i)
+	}
+	if i := idx(w.mapKeys, id); i >= 0 && id != "" {
+		return fmt.Sprintf("key%d", i)
+	}
+	if i := idx(w.codeIDs, id); i >= 0 {
+		return fmt.Sprintf("c%d", i)
+	}
+	if i := idx(w.codes, id); i >= 0 {
+		return fmt.Sprintf("code%d", i)
+	}
+	if i := idx(w.domIDs, id); i >= 0 {
+		return fmt.Sprintf("d%d", i)
+	}
+	return ""
+}
+
+func volatileKey(k string) bool {
+	switch k {
+	case "id", "code", "secret_key", "notify_id", "timestamp", "last_updated", "command_id", "request_id":
+		return true
+	}
+	return strings.HasSuffix(k, "_at") || strings.Contains(k, "expire") || strings.Contains(k, "time")
+}
+
+func (w *world) canon(v any, newIDs map[string]bool) any {
+	switch x := v.(type) {
+	case map[string]any:
+		out := map[string]any{}
+		for k, val := range x {
+			if !volatileKey(k) {
+				out[k] = w.canon(val, newIDs)
+			}
+		}
+		return out
+	case []any:
+		out := make([]any, len(x))
+		for i := range x {
+			out[i] = w.canon(x[i], newIDs)
+		}
+		return out
+	case string:
+		if r := w.refOf(x); r != "" {
+			return "@" + r
+		}
+		if newIDs[x] {
+			return "@new"
+		}
+		if strings.HasPrefix(x, "{") {
+			var inner any
+			if json.Unmarshal([]byte(x), &inner) == nil {
+				return w.canon(inner, newIDs)
+			}
+		}
+		return x
+	}
+	return v
+}
+
+func (w *world) digest(raw []byte, newIDs map[string]bool) string {
+	var v any
+	if json.Unmarshal(raw, &v) != nil {
+		sum := sha1.Sum(raw)
+		return "raw" + hex.EncodeToString(sum[:4])
+	}
+	b, _ := json.Marshal(w.canon(v, newIDs))
+	sum := sha1.Sum(b)
+	return hex.EncodeToString(sum[:4])
 }
 
 func idx(xs []string, x string) int {
@@ -589,7 +737,48 @@ func joinOr(xs []string) string {
 
 // ---------------------------------------------------------------- the command packet
 
+// identityKeys: every identity-like JSON key some struct of the server can decode (client / sender / user / owner /
+// creator / connection / node ids). The same list is regenerated from the struct tags by the extractor
+// (Gen.c11.identityKeys); the Lean driver rejects a case whose key list differs from the regenerated one, and
+// theorem C11_identity_keys pins it.
+var identityKeys = []string{"activated_by:n", "by_client_id:n", "client_id:n", "conn_id:s", "connection_id:s", "created_by:s",
+	"listen_client_id:n", "new_node_id:s", "node_id:s", "peer_client_id:n", "platform_user_id:n", "revoked_by:s",
+	"sender_client_id:n", "source_conn_id:s", "source_node_id:s", "target_client_id:n", "target_node_id:s", "user_id:s"}
+
+// withExtras marks a case: the body additionally carries every identity-like key (unless the documented body already
+// has it) with the foreign client id v (string-typed keys: "client-<v>").
+func withExtras(cs string, v int64) string {
+	return strings.Replace(cs, " W ", fmt.Sprintf(" e %d %s W ", v, strings.Join(identityKeys, ",")), 1)
+}
+
 func (w *world) body(k *kase) string {
+	b := w.body0(k)
+	if k.extra == 0 || k.bad {
+		return b
+	}
+	var m map[string]any
+	if json.Unmarshal([]byte(b), &m) != nil {
+		return b
+	}
+	for _, ks := range k.extraKey {
+		p := strings.SplitN(ks, ":", 2)
+		if len(p) != 2 {
+			continue
+		}
+		if _, has := m[p[0]]; has {
+			continue
+		}
+		if p[1] == "s" {
+			m[p[0]] = fmt.Sprintf("client-%d", k.extra)
+		} else {
+			m[p[0]] = k.extra
+		}
+	}
+	out, _ := json.Marshal(m)
+	return string(out)
+}
+
+func (w *world) body0(k *kase) string {
 	if k.bad {
 		return `{"mapping_id":`
 	}
@@ -701,9 +890,12 @@ func runOnce(k *kase, claimed bool) string {
 				res <- "panic " + strings.ReplaceAll(fmt.Sprint(r), " ", "_")
 			}
 		}()
-		if !claimed && !addressedType(k) {
+		if !claimed {
 			kk := *k
-			kk.g = 0
+			kk.extra = 0
+			if !addressedType(k) {
+				kk.g = 0
+			}
 			k = &kk
 		}
 		w, err := buildWorld(k)
@@ -730,6 +922,9 @@ func runOnce(k *kase, claimed bool) string {
 		if k.resp {
 			pt = packet.CommandResp
 		}
+		if k.faults != 0 && k.m >= 0 && k.m < len(w.mapIDs) {
+			w.stor.arm(constants.KeyPrefixPortMapping+":"+w.mapIDs[k.m], k.faults)
+		}
 		err = w.smOf(k.from).HandlePacket(&types.StreamPacket{ConnectionID: connID(k.from), Timestamp: time.Now(),
 			Packet: &packet.TransferPacket{PacketType: pt, CommandPacket: cmd}})
 		ret := "1"
@@ -746,6 +941,7 @@ func runOnce(k *kase, claimed bool) string {
 				return
 			}
 		}
+		w.stor.arm("", 0)
 		if msg := w.settle(); msg != "" {
 			res <- msg
 			return
@@ -824,7 +1020,32 @@ func runOnce(k *kase, claimed bool) string {
 				gone = append(gone, strconv.Itoa(i))
 			}
 		}
-		res <- fmt.Sprintf("ret %s rsp %s view %s chg %s dlv %s gone %s", ret, rsp, joinOr(view), joinOr(chg), joinOr(dlv), joinOr(gone))
+		// digests: every payload pushed to a connection and every stored record created or changed, all fields,
+		// volatile ones (random ids, secrets, times) removed and the world's ids replaced by their references
+		newIDs := map[string]bool{}
+		for id := range after.raw {
+			if _, ok := before.raw[id]; !ok {
+				newIDs[id] = true
+			}
+		}
+		var dig []string
+		for i, fs := range w.streams {
+			for _, p := range fs.snapshot() {
+				if !p.ptype.IsCommandResp() {
+					dig = append(dig, fmt.Sprintf("p%d.%d.%s", i, p.ctype, w.digest([]byte(p.body), newIDs)))
+				}
+			}
+		}
+		for id, raw := range after.raw {
+			if old, ok := before.raw[id]; !ok || string(old) != string(raw) {
+				ref := w.refOf(id)
+				if ref == "" {
+					ref = "new"
+				}
+				dig = append(dig, fmt.Sprintf("s%s.%s", ref, w.digest(raw, newIDs)))
+			}
+		}
+		res <- fmt.Sprintf("ret %s rsp %s view %s chg %s dlv %s gone %s dig %s", ret, rsp, joinOr(view), joinOr(chg), joinOr(dlv), joinOr(gone), joinOr(dig))
 	}()
 	select {
 	case s := <-res:
@@ -869,10 +1090,35 @@ func execCase(out *vc.Out, caseStr string) {
 		out.Case(key+"x "+caseStr[2:], a+" ~ "+b, caseStr)
 		return
 	}
-	if k.snd != "0" || k.rcv != "0" || k.tok != "-" || (k.g != 0 && !addressedType(k)) {
+	if k.snd != "0" || k.rcv != "0" || k.tok != "-" || k.extra != 0 || (k.g != 0 && !addressedType(k)) {
 		b = runOnce(k, false)
 	}
+	if k.faults != 0 && !faultModelled(k) {
+		// read faults are modelled for the commands that look one named mapping up; for every other command the case
+		// is an excluded point of the model comparison and is judged by the property predicate only
+		out.Count("excluded-point:read-fault-unmodelled-command")
+		out.Case(key+"x "+caseStr[2:], a+" ~ "+b, caseStr)
+		return
+	}
 	out.Case(key+caseStr, a+" ~ "+b, caseStr)
+}
+
+func faultModelled(k *kase) bool {
+	switch packet.CommandType(k.ctype) {
+	case packet.MappingGet, packet.MappingDelete, packet.TunnelTrafficReport:
+		return true
+	case packet.SOCKS5TunnelRequestCmd:
+		return !k.bridge // on the broadcast path every receiving node reads the record again
+	}
+	return false
+}
+
+// withFaults marks a case: the reads of the named mapping's record fail as the plan says.
+func withFaults(cs string, plan int) string {
+	if plan == 0 {
+		return cs
+	}
+	return strings.Replace(cs, " W ", fmt.Sprintf(" q %d W ", plan), 1)
 }
 
 // addressedType: the commands whose body target_client_id is the addressee by protocol design (DNS forward,
@@ -950,10 +1196,18 @@ func gen(out *vc.Out, r *vc.Rand, thorough bool) {
 	type claim struct {
 		snd, rcv int64
 		tok      string
+		extra    int64
 	}
-	claims := []claim{{0, 0, "-"}, {A, B, "1001"}, {B, A, "1002"}}
+	claims := []claim{{0, 0, "-", 0}, {A, B, "1001", 0}, {B, A, "1002", 0}, {0, 0, "-", B}, {0, 0, "-", A}}
 	if thorough {
-		claims = append(claims, claim{S, 0, "x"}, claim{0, A, "-"}, claim{A, A, "1001"}, claim{4242, -7, "0"}, claim{0, 0, "1002"})
+		claims = append(claims, claim{S, 0, "x", 0}, claim{0, A, "-", 0}, claim{A, A, "1001", 0}, claim{4242, -7, "0", 0}, claim{0, 0, "1002", 0},
+			claim{A, B, "1001", S}, claim{0, 0, "-", 4242})
+	}
+	ex := func(cs string, v int64) string {
+		if v == 0 {
+			return cs
+		}
+		return withExtras(cs, v)
 	}
 	// 1. exhaustive: command type x identity x claimed fields x target object
 	for _, ct := range allTypes() {
@@ -970,13 +1224,13 @@ func gen(out *vc.Out, r *vc.Rand, thorough bool) {
 							gs = []int64{A, B, S, 0, -1, 4242}
 						}
 						for _, g := range gs {
-							if resp && !(ct == int(packet.DNSResolve) || ct == int(packet.DNSQuery) || ct == int(packet.HTTPProxyResponse)) && (cl.snd != 0 || o != 0) {
+							if resp && !(ct == int(packet.DNSResolve) || ct == int(packet.DNSQuery) || ct == int(packet.HTTPProxyResponse)) && (cl.snd != 0 || cl.extra != 0 || o != 0) {
 								continue // response-typed packets of other commands: one representative each
 							}
 							if !usesTarget(ct) && !resp {
 								g = B // generic probe: name a target client even where the model's table has no use for it
 							}
-							execCase(out, caseStr(ct, resp, from, cl.snd, cl.rcv, cl.tok, false, o, g, o, o, std))
+							execCase(out, ex(caseStr(ct, resp, from, cl.snd, cl.rcv, cl.tok, false, o, g, o, o, std), cl.extra))
 							out.Count(fmt.Sprintf("matrix:id=%s", conns[from][:1]))
 						}
 					}
@@ -1026,10 +1280,35 @@ func gen(out *vc.Out, r *vc.Rand, thorough bool) {
 						w = worldStr(cs, nil, []string{fmt.Sprintf("%d:%d", B, st)}, []string{fmt.Sprint(B)})
 					}
 					execCase(out, caseStr(ct, false, from, 0, 0, "-", false, 0, 0, 0, 0, w))
+					execCase(out, withExtras(caseStr(ct, false, from, 0, 0, "-", false, 0, 0, 0, 0, w), B))
 					if thorough {
 						execCase(out, caseStr(ct, false, from, o, o, fmt.Sprint(o), false, 0, 0, 0, 0, w))
 					}
 					out.Count("small-scope:code-domain-ownership")
+				}
+			}
+		}
+	}
+	// 1d. transient storage-read faults: every schedule of failures over the first reads of the named mapping's record
+	//     x identity x whose mapping it is, for the commands that look a mapping up (modelled), and for every other
+	//     interesting command type (judged by the predicate only)
+	maxPlan := 7
+	if thorough {
+		maxPlan = 31
+	}
+	for _, ct := range []int{75, 76, 110, 90, 74, 50, 72, 86, 120, 102, 71, 87} {
+		for from := 0; from < len(conns); from++ {
+			for m := 0; m < 3; m++ {
+				for plan := 1; plan <= maxPlan; plan++ {
+					cs := caseStr(ct, false, from, 0, 0, "-", false, m, B, 0, 0, std)
+					if !(ct == 75 || ct == 76 || ct == 110 || ct == 90) && (m != 0 || plan > 3) {
+						continue
+					}
+					execCase(out, withFaults(cs, plan))
+					if thorough && plan <= 3 {
+						execCase(out, withFaults(withExtras(caseStr(ct, false, from, A, B, "1001", false, m, B, 0, 0, std), A), plan))
+					}
+					out.Count("read-faults")
 				}
 			}
 		}
@@ -1054,6 +1333,9 @@ func gen(out *vc.Out, r *vc.Rand, thorough bool) {
 				for _, from := range froms {
 					for _, g := range []int64{B, 2002, 1004, A, 0, -1} {
 						execCase(out, caseStr(ct, false, from, 0, 0, "-", false, 0, g, 0, 0, w))
+						if g == B || g == 2002 {
+							execCase(out, withExtras(caseStr(ct, false, from, 0, 0, "-", false, 0, g, 0, 0, w), 2002))
+						}
 						if thorough {
 							execCase(out, caseStr(ct, false, from, B, 2002, "2002", false, 0, g, 0, 0, w))
 							execCase(out, caseStr(ct, false, from, 0, 0, "-", false, 1, g, 0, 0, w))
@@ -1129,7 +1411,14 @@ func gen(out *vc.Out, r *vc.Rand, thorough bool) {
 			tok = fmt.Sprint(vc.Pick(r, ids))
 		}
 		g := vc.Pick(r, []int64{A, B, S, 1004, 0, -1})
-		execCase(out, caseStr(ct, r.Intn(10) == 0, r.Intn(nc), snd, rcv, tok, r.Intn(20) == 0, ref(len(ms)), g, ref(len(cds)), ref(len(ds)), w))
+		cstr := caseStr(ct, r.Intn(10) == 0, r.Intn(nc), snd, rcv, tok, r.Intn(20) == 0, ref(len(ms)), g, ref(len(cds)), ref(len(ds)), w)
+		if r.Intn(3) == 0 {
+			cstr = withExtras(cstr, vc.Pick(r, ids))
+		}
+		if r.Intn(4) == 0 {
+			cstr = withFaults(cstr, r.Intn(8))
+		}
+		execCase(out, cstr)
 		out.Count("random")
 	}
 }
@@ -1159,6 +1448,7 @@ func main() {
 	flag.Parse()
 	corelog.SetDefault(corelog.NewNopLogger())
 	out := vc.NewOut()
+	out.Samples = []string{} // never null in the stats file (case lines with the key list are longer than the sample limit)
 	for _, f := range flag.Args() {
 		data, err := os.ReadFile(f)
 		if err != nil {
